@@ -258,11 +258,11 @@ def run_case(case):
 
 @st.composite
 def netlist_cases(draw, max_nodes):
-    desc = draw(netlists(max_nodes=max_nodes, min_nodes=2, n_regs=(2, 6), hierarchy=2, max_w=16, domains=draw(st.booleans()), widths=[1, 2, 4, 4, 8],
+    desc = draw(netlists(max_nodes=max_nodes, min_nodes=2, n_regs=(2, 6), n_mems=(0, 2), hierarchy=2, max_w=16, domains=draw(st.booleans()), widths=[1, 2, 4, 4, 8],
                          ops=['And2', 'Or2', 'Xor2', 'Not', 'Add', 'Sub', 'Mux2', 'Constant', 'Range', 'Bit', 'ZeroExtend', 'Buf']))
     from ..cat_arith import value_st
     # bias towards registers that read another register's output directly (chains, swaps, rings across domains)
-    regs = [k for k, nd in enumerate(desc['nodes']) if is_state(nd)]
+    regs = [k for k, nd in enumerate(desc['nodes']) if nd['op'] == 'Reg']
     for k in regs:
         same = [j for j in regs if j != k and desc['nodes'][j]['w'] == desc['nodes'][k]['w']]
         if same and draw(st.booleans()):
